@@ -219,6 +219,9 @@ def run_records(ctx, focus, n_random, exhaustive_n=0, field=0):
             rec = gen.random_record(rng, s, j, n=rng.randint(6, 30), gaps=rng.choice([0, 0, 1]))
         else:
             rec = gen.layout_record(rng, s, j, gaps=rng.choice([0, 0, 1]))
+        if i % 7 == 3:
+            rec.make_fine(rng)
+            ctx.count("records_with_a_fast_logger_and_outages_between_grid_instants")
         res = C.run_case(ctx, rec, s, j)
         judge(ctx, focus, res, C.replay_input(rec, s, j), ["events", "random", "dense", "layout"][kind])
     # long records: hundreds of samples, tens of storms and rises (size-dependent behaviour: hash order of the
@@ -265,6 +268,7 @@ def replay_record(ctx, focus, doc):
     if "generator" in r:
         return None
     rec = gen.Record(r["dt"], r["t0"], r["rain"], r["level"], set(r["removed"]), r["pre"], r["post"], phase=r.get("phase", 0))
+    rec.fine, rec.fine_gaps = r.get("fine", 1), set(r.get("fine_gaps", []))
     res = C.run_case(ctx, rec, inp["s"], inp["j"], tz=inp.get("timezone", "UTC"))
     if res["load"][0] != "ok":
         print("load refused:", res["load"])
